@@ -964,5 +964,53 @@ fn real_main() {
             }
         }
     }
+    // ---- the intermediate object released without ever being turned into a view (oracle only: zero bytes
+    //      were written, so the backing container must be exactly as before; a following use appends behind it)
+    for len in [0usize, 1, 3, 7] {
+        for spare in [0usize, 1, 4] {
+            for capped in [None, Some(0usize), Some(2), Some(100)] {
+                use libtw2_buffer::Buffer as _;
+                let id = format!("unused-intermediate-{}-{}-{:?}", len, spare, capped);
+                o.tick("unused-intermediate", "unused-intermediate");
+                let orig: Vec<u8> = (0..len as u8).map(|x| x.wrapping_mul(37).wrapping_add(1)).collect();
+                // Vec
+                let r = guard(|| {
+                    let mut v: Vec<u8> = Vec::with_capacity(len + spare);
+                    v.extend_from_slice(&orig);
+                    match capped { None => drop((&mut v).to_to_buffer_ref()), Some(c) => drop((&mut v).cap_at(c).to_to_buffer_ref()) }
+                    let after_drop = v.clone();
+                    let wrote = libtw2_buffer::with_buffer(&mut v, |mut b| b.write(&[0xee]).is_ok());
+                    (after_drop, wrote, v)
+                });
+                match r {
+                    Ok((after_drop, wrote, v)) => {
+                        o.check(after_drop == orig, "-", &id, || format!("Vec {:?}: an intermediate released unused changed the vector to {:?}", orig, after_drop));
+                        let mut want = orig.clone(); if wrote { want.push(0xee); }
+                        o.check(v == want, "-", &id, || format!("Vec {:?}: after an unused intermediate a write of one byte (accepted: {}) gives {:?}", orig, wrote, v));
+                    }
+                    Err(p) => o.check(false, "-", &id, || format!("Vec: releasing an unused intermediate panicked: {}", p)),
+                }
+                // ArrayVec
+                if len + spare <= 32 {
+                    let r = guard(|| {
+                        let mut v: arrayvec::ArrayVec<[u8; 32]> = arrayvec::ArrayVec::new();
+                        for b in &orig { v.push(*b); }
+                        match capped { None => drop((&mut v).to_to_buffer_ref()), Some(c) => drop((&mut v).cap_at(c).to_to_buffer_ref()) }
+                        let after_drop: Vec<u8> = v.to_vec();
+                        let wrote = libtw2_buffer::with_buffer(&mut v, |mut b| b.write(&[0xee]).is_ok());
+                        (after_drop, wrote, v.to_vec())
+                    });
+                    match r {
+                        Ok((after_drop, wrote, v)) => {
+                            o.check(after_drop == orig, "-", &id, || format!("ArrayVec {:?}: an intermediate released unused changed it to {:?}", orig, after_drop));
+                            let mut want = orig.clone(); if wrote { want.push(0xee); }
+                            o.check(v == want, "-", &id, || format!("ArrayVec {:?}: after an unused intermediate a write of one byte gives {:?}", orig, v));
+                        }
+                        Err(p) => o.check(false, "-", &id, || format!("ArrayVec: releasing an unused intermediate panicked: {}", p)),
+                    }
+                }
+            }
+        }
+    }
     o.finish();
 }
